@@ -1,20 +1,31 @@
-(** C09 - parsing is monotonic in the decimal value.
-    FULL STATEMENT (needs C01/C02, not yet closed):  valid a -> valid b -> dec_value a <= dec_value b ->
-      bits (parse_float a) <= bits (parse_float b).
-    PROVED (closed by [exact]; spec/RoundFacts.v): the oracle is monotone - RN f v <= RN f v' for
-    0 <= v <= v' as integers, which on non-negative patterns is the order of the floats incl. +inf
-    ([bits_le_iff]); the overflow / underflow switch-overs sit exactly at the IEEE thresholds.
-    The check compares ordered neighbours on the real code directly (w, w+1; last digit +-1;
-    exponent +-1 across every algorithm switch-over). *)
+(** C09 - parsing is monotonic in the decimal value.  PROVED END TO END: [C09_monotone] (bit patterns of non-negative floats are ordered like their values, +inf on top: [bits_le_iff]).
+    Domain and premise as in props/C01.v: [in_domain] = valid_inputb and at most 2^28 digits, every i32
+    exponent; [deep_ok] is vacuous for the compact configurations and the single residual premise for
+    the Eisel-Lemire ones (see props/C01.v).  Closed by [exact]; the model is tied to /repo by the
+    correspondence harness on every run. *)
 
-From Coq Require Import ZArith QArith List Bool Reals.
+From Coq Require Import ZArith QArith Qabs List Bool Reals Qreals.
 From Coq Require Import Floats.SpecFloat.
 From Flocq Require Import Core.Core.
-From ML Require Import base.RustSem model.Fmt model.FloatOps model.Number model.Parse model.Top spec.Decimal spec.Round spec.RoundFacts
-  gen.Consts gen.Tables gen.BTables gen.PowDump proofs.ParseFacts proofs.Glue proofs.NoUB proofs.FastPathFacts proofs.EndToEnd.
+From ML Require Import base.RustSem model.Fmt model.Num model.Number model.Parse model.Lemire model.Bellerophon model.Top
+  spec.Decimal spec.Round spec.RoundFacts spec.DigitsSuffice gen.Consts gen.Tables gen.BTables gen.PowDump
+  proofs.ParseFacts proofs.FastPathFacts proofs.EndToEnd proofs.EndToEnd2 proofs.EndToEnd3 proofs.EndToEnd4 proofs.EndToEnd5 proofs.EndToEnd6 proofs.EndToEnd7
+  proofs.LemireFacts6 proofs.Glue.
 Import ListNotations.
 
 Open Scope Z_scope.
+
+Theorem C09_C09_monotone :
+  forall (c : config) (f : format) (b : build) (i1 f1 : list Z) (e1 : Z) (i2 f2 : list Z) (e2 r1 r2 : Z),
+         In c ALL_CONFIGS ->
+         f = F32 \/ f = F64 ->
+         in_domain i1 f1 e1 ->
+         in_domain i2 f2 e2 ->
+         deep_ok c f b i1 f1 e1 ->
+         deep_ok c f b i2 f2 e2 ->
+         (dec_value i1 f1 e1 <= dec_value i2 f2 e2)%Q ->
+         PF c f b i1 f1 e1 = Ok r1 -> PF c f b i2 f2 e2 = Ok r2 -> r1 <= r2.
+Proof. exact C09_monotone. Qed.
 
 Theorem C09_RN_monotone :
   forall f : format, sfmt_ok f = true -> forall v v' : Q, (0 <= v)%Q -> (v <= v')%Q -> RN f v <= RN f v'.
@@ -27,22 +38,9 @@ Theorem C09_bits_le_iff :
          valid_binary (prec f) (emax f) s1 = true ->
          valid_binary (prec f) (emax f) s2 = true ->
          nonneg_sf s1 = true ->
-         nonneg_sf s2 = true -> (SF2R_inf f s1 <= SF2R_inf f s2)%R <-> bits_of_sf f s1 <= bits_of_sf f s2.
+         nonneg_sf s2 = true ->
+         (SF2R_inf f s1 <= SF2R_inf f s2)%R <-> FloatOps.bits_of_sf f s1 <= FloatOps.bits_of_sf f s2.
 Proof. exact bits_le_iff. Qed.
-
-Theorem C09_bits_lt_iff :
-  forall f : format,
-         sfmt_ok f = true ->
-         forall s1 s2 : spec_float,
-         valid_binary (prec f) (emax f) s1 = true ->
-         valid_binary (prec f) (emax f) s2 = true ->
-         nonneg_sf s1 = true ->
-         nonneg_sf s2 = true -> (SF2R_inf f s1 < SF2R_inf f s2)%R <-> bits_of_sf f s1 < bits_of_sf f s2.
-Proof. exact bits_lt_iff. Qed.
-
-Theorem C09_RN_range :
-  forall f : format, sfmt_ok f = true -> forall v : Q, (0 <= v)%Q -> 0 <= RN f v <= inf_bits f.
-Proof. exact RN_range. Qed.
 
 Theorem C09_overflow_threshold_iff :
   forall f : format,
@@ -54,23 +52,9 @@ Theorem C09_underflow_threshold_iff :
          sfmt_ok f = true -> forall v : Q, (0 <= v)%Q -> RN f v = 0 <-> (v <= underflow_thresholdQ f)%Q.
 Proof. exact underflow_threshold_iff. Qed.
 
-Theorem C09_fast_class_monotone :
-  forall (c : config) (f : format) (b : build) (BT : btables) (L : limits) (i1 f1 : list Z) 
-           (e1 : Z) (i2 f2 : list Z) (e2 r1 r2 : Z),
-         In c ALL_CONFIGS ->
-         f = F32 \/ f = F64 ->
-         fast_class f i1 f1 e1 ->
-         fast_class f i2 f2 e2 ->
-         (dec_value i1 f1 e1 <= dec_value i2 f2 e2)%Q ->
-         parse_float c TABLES BT L f b i1 f1 e1 = Ok r1 ->
-         parse_float c TABLES BT L f b i2 f2 e2 = Ok r2 -> r1 <= r2.
-Proof. exact fast_class_monotone. Qed.
 
-
+Print Assumptions C09_C09_monotone.
 Print Assumptions C09_RN_monotone.
 Print Assumptions C09_bits_le_iff.
-Print Assumptions C09_bits_lt_iff.
-Print Assumptions C09_RN_range.
 Print Assumptions C09_overflow_threshold_iff.
 Print Assumptions C09_underflow_threshold_iff.
-Print Assumptions C09_fast_class_monotone.
